@@ -117,6 +117,26 @@ def rule_formula(ctx):
     ctx.add("FRESH-TAKEN", "sequence", _shape(vs) == ref, ctx.site(sq), "Variable::sequence(v) = v.name1, v.name2, ... of v's sort: an infinite supply, so find() always succeeds", construct=vs)
 
 
+def subsort_body(fx):
+    """the function that decides `sort(v1) is a subsort of sort(v2)` on two variables: `unstable::subsort`, or - after a refactoring - the one
+    function of the classic simplifier with two Variable parameters (receiver included) and a bool result (a trait method for Variable)"""
+    try:
+        return fx.fn("unstable::subsort")
+    except AnalysisGap:
+        pass
+    VT = "syntax_tree::fol::sigma_0::Variable"
+    cands = []
+    for b in getattr(fx, "all_bodies", fx.body_list):
+        if not b["file"].endswith("simplifying/fol/sigma_0/classic.rs") or "::tests" in b["def_path"] or b.get("ret_ty") != "bool":
+            continue
+        tys = [str(p_.get("ty", "")).lstrip("&").strip() for p_ in b.get("params", [])]
+        if len(tys) == 2 and all(t_ == VT for t_ in tys):
+            cands.append(b)
+    if len(cands) != 1:
+        raise AnalysisGap("anchor: the subsort test on two variables in classic.rs: expected exactly one body, found %d" % len(cands))
+    return cands[0]
+
+
 def _shape(t, depth=0):
     """The term up to the spelling that cannot matter: closure parameters are numbered by nesting depth and position, and a two-way choice on
     a negated condition is the opposite choice on the condition."""
@@ -392,7 +412,7 @@ def rule_sites(ctx):
             else:
                 ctx.bad("SITES", key, ctx.site(b, c), "unknown caller of Formula::substitute: sort compatibility of %s is not established" % r)
     # the subsort table used by the last site
-    sb = fx.fn("unstable::subsort")
+    sb = subsort_body(fx)
     tab = {}
     sorts_ = fx.variants(S + "Sort")
     for a in sorts_:
@@ -417,7 +437,7 @@ def rule_sites(ctx):
                 tup = ("list", (dict(tup[2])[TE_SELECT["keep"]], dict(tup[2])[TE_SELECT["drop"]], None))
             if isinstance(tup, tuple) and tup[:1] == ("list",) and len(tup[1]) == 3:
                 keep, drop = leaves.norm(tup[1][0]), leaves.norm(tup[1][1])
-                guarded = any(t[0] == "cond" and t[2] is True and isinstance(t[1], tuple) and t[1][:1] == ("call",) and t[1][1].endswith("subsort")
+                guarded = any(t[0] == "cond" and t[2] is True and isinstance(t[1], tuple) and t[1][:1] == ("call",) and "subsort" in t[1][1].lower()
                               and tuple(leaves.norm(leaves.strip_acc(a)) for a in t[1][2]) == (keep, drop) for t in ts)
                 res.append(guarded)
             else:
